@@ -44,7 +44,9 @@ StrSym == [
   S_hAuth |-> <<65, 117, 116, 104, 111, 114, 105, 122, 97, 116, 105, 111, 110>>,      \* Authorization
   S_hCookie |-> <<67, 111, 111, 107, 105, 101>>,                        \* Cookie
   S_both  |-> <<98, 111, 116, 104>>, S_remove |-> <<114, 101, 109, 111, 118, 101>>,
-  S_ftype |-> <<70, 79, 82, 77, 95, 84, 89, 80, 69>> ]                 \* FORM_TYPE
+  S_ftype |-> <<70, 79, 82, 77, 95, 84, 89, 80, 69>>,                  \* FORM_TYPE
+  \* 5000 letters: longer than the 4096 byte buffers of encoding/xml's encoder and of bufio
+  S_big   |-> [i \in 1..5000 |-> 97 + (i % 26)] ]
 
 JidSym == [
   J_zero  |-> <<>>,                                                    \* jid.JID{}
@@ -56,12 +58,34 @@ JidSym == [
   J_uni   |-> <<233, 64, 252, 46, 101, 120, 97, 109, 112, 108, 101, 47, 8364>> ]
 
 (* time: <<unix seconds, nanoseconds, zone offset in seconds>>; T_zero is time.Time{}     *)
+(* "times in any zone": INSTANTS (before 1970, with a sub-second part at the end of a   *)
+(* year, on a leap day) x ZONE OFFSET CLASSES (UTC, whole hours east / west, half and   *)
+(* three-quarter hours east / west, less than one hour west - the hour part of the      *)
+(* offset is zero but the offset is negative -, the extreme offsets +14:00 and -12:00). *)
+(* Offsets are whole minutes: the XEP-0082 zone definition has a resolution of a minute. *)
+Instants == [pre  |-> <<-14182940, 0>>,            \* 1969-07-20T20:17:40Z
+             frac |-> <<1640995199, 123456789>>,   \* 2021-12-31T23:59:59.123456789Z
+             leap |-> <<1582979696, 0>>]           \* 2020-02-29T12:34:56Z
+Offsets == [utc |-> 0, e0100 |-> 3600, w0800 |-> -28800, e0530 |-> 19800, w0330 |-> -12600,
+            e0545 |-> 20700, w0245 |-> -9900, w0030 |-> -1800, e1400 |-> 50400, w1200 |-> -43200]
+ZoneName(i, z) == IF z = "utc" THEN (CASE i = "leap" -> "T_utc" [] i = "frac" -> "T_frac" [] OTHER -> "T_" \o i)
+                  ELSE "T_" \o i \o "_" \o z
+ZonePairs == (DOMAIN Instants) \X (DOMAIN Offsets)
+ZoneTimeSym == [n \in {ZoneName(p[1], p[2]) : p \in ZonePairs} |->
+                  LET p == CHOOSE q \in ZonePairs : ZoneName(q[1], q[2]) = n
+                  IN <<Instants[p[1]][1], Instants[p[1]][2], Offsets[p[2]]>>]
 TimeSym == [
   T_zero |-> <<0, 0, 0>>,
-  T_utc  |-> <<1582979696, 0, 0>>,               \* 2020-02-29T12:34:56Z
-  T_frac |-> <<1640995199, 123456789, 0>>,       \* 2021-12-31T23:59:59.123456789Z
   T_east |-> <<1654025523, 500000000, 19800>>,   \* 2022-06-01T01:02:03.5+05:30
   T_west |-> <<915177600, 0, -28800>> ]          \* 1999-01-01T00:00:00-08:00
+  @@ ZoneTimeSym                                 \* T_utc = leap day in UTC, T_frac = sub-second part in UTC, T_pre ...
+(* Where the zone is not part of a value two times are the same value iff they are the   *)
+(* same instant: InstOf names the instant by its symbol in UTC (if there is one).        *)
+SameInstant(a, b) == TimeSym[a][1] = TimeSym[b][1] /\ TimeSym[a][2] = TimeSym[b][2]
+InstOf(t) == IF t = "T_zero" THEN t
+             ELSE IF \E c \in DOMAIN TimeSym \ {"T_zero"} : SameInstant(c, t) /\ TimeSym[c][3] = 0
+                    THEN CHOOSE c \in DOMAIN TimeSym \ {"T_zero"} : SameInstant(c, t) /\ TimeSym[c][3] = 0
+                    ELSE t
 (* integers as decimal strings (TLC integers are 32 bit) *)
 IntSym == [
   N_0 |-> <<48>>, N_1 |-> <<49>>, N_2 |-> <<50>>, N_3 |-> <<51>>, N_4 |-> <<52>>, N_7 |-> <<55>>,
@@ -116,12 +140,45 @@ Conds == {"bad-request", "conflict", "feature-not-implemented", "forbidden", "go
           "resource-constraint", "service-unavailable", "subscription-required",
           "undefined-condition", "unexpected-request"}
 P(l, t) == [lang |-> l, text |-> t]
+(* ------------------------------------------------------------------ application-specific conditions *)
+(* An element is identified by its namespace AND its local name.  An application-specific   *)
+(* condition is a child of the error in a namespace OTHER than the error's own; its local   *)
+(* name is the application's choice, so it may COLLIDE with a name the codec treats         *)
+(* specially in the error's own namespace (text, see-other-host / gone / redirect, every    *)
+(* defined condition, error, the stanza names): it stays a foreign element.  It has an      *)
+(* attribute, character data and a child that is a <text/> of the error's OWN namespace     *)
+(* (nested, hence part of the application's element and not a text of the error).           *)
+NSStanzaErr == "urn:ietf:params:xml:ns:xmpp-stanzas"
+NSStreamErr == "urn:ietf:params:xml:ns:xmpp-streams"
+NSStreams   == "http://etherx.jabber.org/streams"
+NSApp       == "urn:vt:payload"
+El(space, local) == [space |-> space, local |-> local]
+NoApp    == El("", "")            \* no application-specific condition
+PlainApp == El(NSApp, "x")        \* a name that collides with nothing
+Foreign(own) == (IF Tier = "quick" THEN {NSStanzaErr, NSStreamErr}
+                 ELSE {NSStanzaErr, NSStreamErr, NSStreams, "jabber:client", "jabber:server"}) \ {own}
+SpecialLocals(conds) == {"text", "error", "iq", "message", "presence"} \cup conds
+(* every special name in the application's own namespace; in the other foreign namespaces (the *)
+(* other kind of error, the stream, the stanzas) quick: the names that have content            *)
+CollidingApps(own, conds) ==
+  [space : {NSApp}, local : SpecialLocals(conds)]
+  \cup [space : Foreign(own), local : IF Tier = "quick" THEN {"text", "error"} \cup (conds \cap {"see-other-host", "gone"})
+                                       ELSE SpecialLocals(conds)]
 (* stanza.Error.Text is a map from language to text: pairs with distinct languages;    *)
 (* every subset is a value (0 to 4 texts: no tag, one, two or three different tags,   *)
 (* with and without an untagged text); a map has no order, the views are compared as  *)
 (* sets of (language, text) pairs                                                     *)
 ErrPairs == {P("S_empty", "S_xml"), P("S_en", "S_uni"), P("S_de", "S_ml"), P("S_uni", "S_empty")}
-StanzaErrors == [by : JidSyms, type : ErrTypes, cond : Conds, texts : SUBSET ErrPairs]
+(* app: the application-specific condition the error is wrapped around (Error.Wrap(payload)); *)
+(* it is not part of the decoded value (ErrCore).  Every error with an ordinary application   *)
+(* condition, and every condition x every colliding application element x without / with texts *)
+(* (quick: of the condition names the application element takes the error's own and one other)  *)
+NameFits(local, conds, own, other) == Tier # "quick" \/ local \notin conds \/ local \in {own, other}
+StanzaErrors == [by : JidSyms, type : ErrTypes, cond : Conds, texts : SUBSET ErrPairs, app : {PlainApp}]
+                \cup {e \in [by : {"J_fullx"}, type : {"cancel", "wait"}, cond : Conds,
+                              texts : {{}, {P("S_empty", "S_xml"), P("S_en", "S_uni"), P("S_de", "S_ml")}},
+                              app : CollidingApps(NSStanzaErr, Conds)] : NameFits(e.app.local, Conds, e.cond, "gone")}
+ErrCore(e) == [by |-> e.by, type |-> e.type, cond |-> e.cond, texts |-> e.texts]
 
 (* A text whose data is empty is skipped by Error.Wrap and by Error.UnmarshalXML      *)
 (* (stanza/error.go: `if data == "" { continue }`, `if text.Data == "" { continue }`);*)
@@ -152,9 +209,15 @@ MultiLangTexts == {[i \in 1..Len(ls) |-> P(ls[i], TextAt[i])] : ls \in SeqsUpTo(
 StreamTexts == SeqsUpTo(StreamPairs, 2) \cup MultiLangTexts
 (* Content: "The content of the error condition element. This should only be used by  *)
 (* see-other-host errors." (stream/error.go) - quantified only there.                 *)
-StreamErrors ==
-  {e \in [err : StreamConds, texts : StreamTexts, content : {"S_empty", "S_a", "S_xml"},
-          app : BOOLEAN] : e.content # "S_empty" => e.err = "see-other-host"}
+StreamErrorsOf(texts, apps) ==
+  {e \in [err : StreamConds, texts : texts, content : {"S_empty", "S_a", "S_xml"},
+          app : apps] : e.content # "S_empty" => e.err = "see-other-host"}
+(* every error without / with an ordinary application condition (ApplicationError), and     *)
+(* every condition x every colliding application element x without / with two texts         *)
+FewStreamTexts == {<<>>, <<P("S_en", "S_xml"), P("S_empty", "S_uni")>>}
+StreamErrors == StreamErrorsOf(StreamTexts, {NoApp, PlainApp})
+                \cup {e \in StreamErrorsOf(FewStreamTexts, CollidingApps(NSStreamErr, StreamConds)) :
+                        NameFits(e.app.local, StreamConds, e.err, "see-other-host")}
 (* the application payload is write-only (there is no accessor): not part of the decoded value *)
 StreamErrorNorm(e) == [err |-> e.err, texts |-> e.texts, content |-> e.content]
 
@@ -167,5 +230,37 @@ HelpErrors == {[by |-> "J_zero", type |-> "cancel", cond |-> "item-not-found", t
 HelpStanzas(kind) == [ns : NS, id : {"S_empty", "S_xml"}, to : {"J_zero", "J_bare", "J_fullx"},
                       from : {"J_zero", "J_full", "J_fullx"}, lang : {"S_empty", "S_en"}, type : Types(kind)]
 Helps(kind) == [st : HelpStanzas(kind), pl : Payloads, er : HelpErrors]
+
+(* ------------------------------------------------------------------ plain values on the token-reader path *)
+(* A stanza handed to a session as a PLAIN Go value (a struct with xml tags, no TokenReader /  *)
+(* WriteXML of its own) takes the token-reader path of internal/marshal: Session.Encode,       *)
+(* EncodeElement, EncodeIQ, EncodeMessage, EncodePresence and their ...Element variants        *)
+(* (payload given as a plain value, wrapped in the stanza).  What arrives on the wire must     *)
+(* decode to the same value as the standard marshaller's output, also when TWO such readers    *)
+(* are alive at the same time: the only code of the caller that runs inside a transmit call is *)
+(* the transport, so the second call (on another session) is made from inside the first        *)
+(* transport write of the outer call.  With a body longer than the encoder's buffer that write *)
+(* happens while the outer value's reader is only partly consumed; with a short body it        *)
+(* happens after it (the two calls are then simply consecutive).                               *)
+EncodeCalls == {"Encode", "EncodeElement", "EncodeIQ", "EncodeIQElement", "EncodeMessage",
+                "EncodeMessageElement", "EncodePresence", "EncodePresenceElement"}
+KindsOfCall(ep) == CASE ep \in {"EncodeIQ", "EncodeIQElement"} -> {"iq"}
+                     [] ep \in {"EncodeMessage", "EncodeMessageElement"} -> {"message"}
+                     [] ep \in {"EncodePresence", "EncodePresenceElement"} -> {"presence"}
+                     [] OTHER -> Kinds
+(* the typed calls wait for an answer to requests (IQ get / set) and to every message and      *)
+(* presence that is not an error: quantified are the types after which the call returns        *)
+NoWaitTypes(ep, kind) ==
+  IF ep \in {"Encode", "EncodeElement"}
+    THEN (CASE kind = "iq" -> {"get", "error"} [] kind = "message" -> {"chat", "error"} [] OTHER -> {"", "error"})
+    ELSE IF kind = "iq" THEN {"result", "error"} ELSE {"error"}
+CallsWith(ids, bodies) ==
+  {c \in [ep : EncodeCalls, kind : Kinds, type : UNION {Types(k) : k \in Kinds}, id : ids, body : bodies] :
+     c.kind \in KindsOfCall(c.ep) /\ c.type \in NoWaitTypes(c.ep, c.kind)}
+OuterCalls == CallsWith({"S_a", "S_xml"}, {"S_xml", "S_big"})
+InnerCalls == {c \in CallsWith({"S_uni"}, {"S_uni", "S_big"}) : c.type = "error"}
+EncodePairs == [outer : OuterCalls, inner : InnerCalls]
+StOf(c) == [ns |-> "jabber:client", id |-> c.id, to |-> "J_fullx", from |-> "J_zero", lang |-> "S_empty", type |-> c.type]
+SentStanza(c) == [st |-> Decoded(c.kind, StOf(c)), body |-> c.body]
 
 =============================================================================
